@@ -62,6 +62,13 @@ func checkC13(r *Result) []Violation {
 	}
 	for _, c := range collectCalls(r) {
 		if c.ret != nil {
+			// "within its timeout plus scheduling slack": computation takes no simulated time, so without
+			// injected clock jitter a call is over by issue time + timeout; one second of slack is granted
+			if !r.Plan.Sched.Jitter && c.call.D > 0 && c.ret.T > c.call.T+c.call.D+int64(time.Second) {
+				vs = append(vs, Violation{Prop: "C13", Rule: "C13.late_return", Sig: "C13.late_return",
+					Msg: fmt.Sprintf("SendActiveMessage call %d (timeout %s, issued at t=%s) returned only at t=%s", c.n, time.Duration(c.call.D), time.Duration(c.call.T), time.Duration(c.ret.T)), Step: c.ret.Step})
+				return vs
+			}
 			continue
 		}
 		// classify where the stranded call got stuck, for the signature
